@@ -366,20 +366,36 @@ func readState(kv kvi.KVInterface) (o obs, panicked string) {
 	kv.View(func(it kvi.KVIterator) error {
 		n := 0
 		var s []string
+		// callers collect it.Key() during a scan and use the keys afterwards (kvgraph.DelVertex does): a key
+		// that was handed out must still read the same once the scan has moved on
+		var kept [][]byte
 		for it.Seek([]byte("")); it.Valid() && n < 10; it.Next() {
 			v, _ := it.Value()
+			kept = append(kept, it.Key())
 			s = append(s, fmt.Sprintf("%q=%q", it.Key(), v))
 			n++
 		}
 		o.add("scan-forward", strings.Join(s, ","))
 		s = nil
+		for _, k := range kept {
+			s = append(s, fmt.Sprintf("%q", k))
+		}
+		o.add("scan-forward-keys-read-again-after-the-scan", strings.Join(s, ","))
+		s = nil
+		kept = nil
 		n = 0
 		for it.SeekReverse([]byte("zzz")); it.Valid() && n < 10; it.Next() {
 			v, _ := it.Value()
+			kept = append(kept, it.Key())
 			s = append(s, fmt.Sprintf("%q=%q", it.Key(), v))
 			n++
 		}
 		o.add("scan-reverse", strings.Join(s, ","))
+		s = nil
+		for _, k := range kept {
+			s = append(s, fmt.Sprintf("%q", k))
+		}
+		o.add("scan-reverse-keys-read-again-after-the-scan", strings.Join(s, ","))
 		for _, k := range append(append([]string{}, c10Keys...), "zz") {
 			v, err := it.Get([]byte(k))
 			if err != nil {
